@@ -52,7 +52,8 @@ class MockFS:
 
     def store(self, prov, fso):
         self._objects[prov.normalize_path(fso.path)] = fso
-        if fso.oid not in self._objects:
+        stored = self._objects.get(fso.oid)
+        if stored is None or not stored.exists:
             self._objects[fso.oid] = fso
 
     def unstore(self, prov, fso):
